@@ -1,2 +1,3 @@
 def r02_2(ctx): pass
 def r02_3(ctx): pass
+def r03_1(ctx): pass
